@@ -115,6 +115,18 @@ def replay(chk, h):
     except Exception as e:  # pylint: disable=broad-exception-caught
       chk.violation(f'exception:{type(e).__name__}:{kinds}', f'[{cfg}] {e!r}', ctx)
       continue
+    # the call interface (runner(input_iterator=...)) reports the same aggregate as iteration does
+    try:
+      res_call = p.make()(input_iterator=[dict(bt) for bt in batches])
+    except Exception as e:  # pylint: disable=broad-exception-caught
+      chk.violation(f'call-api:exception:{type(e).__name__}:' + ('empty-stream' if not batches else kinds), f'[{cfg}] runner(input_iterator=batches) raised {e!r}; '
+                    f'iteration reports {res!r}', ctx)
+      continue
+    def _plain(r):
+      return sorted((repr(k), repr(_norm_rows(v))) for k, v in dict(r).items()) if r is not None else []
+    if _plain(res_call) != _plain(res):
+      chk.violation(f'call-api:differs:{kinds}', f'[{cfg}] runner(input_iterator=batches) = {res_call!r}, iteration reports {res!r}', ctx)
+      continue
     got = {}
     res = dict(res) if res is not None else {}
     for k, v in res.items():
